@@ -64,7 +64,7 @@ theorem preserved_names_kept (pg rl rgl : Bool) (moduleNs : Ns) (rg pl pgl : Lis
 /-- the preserve lists reach `allow_rename_*` and `rename` as in the modelled pipeline -/
 theorem pipeline_as_modelled : Generated.pipeline = Pipeline.modelled := by decide +kernel
 
-example : (applyPreserve true true ["keep_me"] [] ⟨0, .name, some "keep_me", 0, true, none, 1, false, []⟩).allow = false := by
+example : (applyPreserve true true ["keep_me"] [] ⟨0, .name, some "keep_me", 0, true, none, 1, false, [], []⟩).allow = false := by
   decide
 
 end PMV.C10
